@@ -246,3 +246,40 @@ for _cls in ('Element', 'Segment', 'Group', 'SupportComplexDataType'):
              modifies=[], allocates=True, properties=['C05', 'C11'],
              # (372 paths, 2 240 obligations, about 7 minutes of VC generation: thorough tier only)
              thorough_only=(_cls == 'SupportComplexDataType'))
+
+# ---- x.children = <list of freshly parsed, detached elements>  (what every parse_* function ends with; C03: nothing is
+# dropped, nothing is reordered): Element.__setattr__ builds a new ElementList and add()s the items one by one
+_DETACHED = 'all(list_at(value, k)._parent is None and list_at(value, k)._traversal_parent is None for k in range(%s))'
+_DISTINCT = 'all(implies(j != k, list_at(value, j) is not list_at(value, k)) for j in range(len(value)) for k in range(len(value)))'
+contract(
+    'hl7apy.core:Element.__setattr__[children/list]',
+    sig={'self': 'Element', 'name': '="children"', 'value': 'list[Element]'},
+    returns='none',
+    requires=[_DETACHED % 'len(value)',
+              'all(list_at(value, k) is not self for k in range(len(value)))',
+              'pairwise_distinct(value)'],
+    ensures=[
+        ('own_list', 'self.children.element is self'),
+        ('every_item_attached_in_order', 'len(self.children.list) == len(value) and '
+                                         'all(list_at(self.children.list, k) is list_at(value, k) for k in range(len(value)))'),
+    ],
+    raises={n: {} for n in ('ChildNotValid', 'ChildNotFound', 'MaxChildLimitReached', 'OperationNotAllowed')},
+    modifies=None,
+    allocates=True,
+    # (inside the body `value` is rebound to the new ElementList: the invariants speak about `children`, the list given)
+    loops={0: {'header': 'for c in children',
+               'inv': [('own_list', 'self.children.element is self and sep(self.children)'),
+                       ('attached_so_far', 'len(self.children.list) == _i and '
+                                           'all(list_at(self.children.list, k) is list_at(children, k) for k in range(_i))'),
+                       ('input_untouched', 'len(children) == old(len(children)) and '
+                                           'all(list_at(children, k) is old(list_at(children, k)) for k in range(len(children)))'),
+                       ('rest_still_detached', 'all(implies(k >= _i, list_at(children, k)._parent is None and '
+                                               'list_at(children, k)._traversal_parent is None) for k in range(len(children)))'),
+                       ('still_distinct', 'pairwise_distinct(children)'),
+                       ('not_self', 'all(list_at(children, k) is not self for k in range(len(children)))'),
+                       # the new container's own lists are younger than the list being copied from: add() never writes it
+                       ('own_lists_are_new', 'elist_above(self.children, children)')],
+               'vars': {}}},
+    exact_self=True,
+    properties=['C03', 'C09'],
+)
